@@ -23,6 +23,36 @@ def instances : Cls → List TRule
   | .slice => [.required, .min 2, .max 4, .length 3, .nonempty]
   | .bool | .map | .struct => [.required]
 
+def smallCmp : List TRule := [.gt 3, .gte 3, .lt 5, .lte 5]
+
+/-- (signed, bits) of the integer field types -/
+def Base.intShape : Base → Option (Bool × Nat)
+  | .int => some (true, 64) | .int8 => some (true, 8) | .int16 => some (true, 16) | .int32 => some (true, 32) | .int64 => some (true, 64)
+  | .uint => some (false, 64) | .uint8 => some (false, 8) | .uint16 => some (false, 16) | .uint32 => some (false, 32) | .uint64 => some (false, 64)
+  | _ => none
+
+def big53 : Int := 2 ^ 53 + 1
+
+/-- single-rule cells with LARGE and type-boundary parameters, per integer width (a parameter above
+    2^53 exposes any detour of the bound through float64), plus `gt/gte/lt/lte` -/
+def extraInstances (b : Base) : List TRule :=
+  match b.intShape with
+  | some (true, bits) =>
+    let hi : Int := 2 ^ (bits - 1) - 1
+    let lo : Int := -(2 ^ (bits - 1))
+    (if bits = 64 then
+      [.min big53, .max big53, .min hi, .max hi, .min lo, .max lo, .gt big53, .gte big53, .lt big53, .lte big53]
+     else [.min hi, .max hi, .min lo, .max lo]) ++ smallCmp
+  | some (false, bits) =>
+    let hi : Int := 2 ^ bits - 1
+    (if bits = 64 then
+      [.min big53, .max big53, .min (2 ^ 63 - 1), .max (2 ^ 63 - 1), .min hi, .max hi, .gt big53, .gte big53, .lt big53, .lte big53]
+     else [.min hi, .max hi]) ++ smallCmp
+  | none => match b with | .float32 | .float64 => smallCmp | _ => []
+
+/-- all single-rule cells of a field type -/
+def singleInstances (b : Base) : List TRule := instances b.cls ++ extraInstances b
+
 def pairsOf : List TRule → List (TRule × TRule)
   | [] => []
   | r :: rs => rs.map (fun s => (r, s)) ++ pairsOf rs
@@ -46,18 +76,35 @@ def Base.slicePtrAny : Base → Bool
 def TRule.isFormat : TRule → Bool
   | .email | .url | .uuid => true | _ => false
 
+/-- no value of the integer type violates the rule -/
+def vacuous (r : TRule) (b : Base) : Bool :=
+  match b.intShape, r with
+  | some (true, bits), .min n => decide (n ≤ -(2 ^ (bits - 1)))
+  | some (true, bits), .max n => decide (2 ^ (bits - 1) - 1 ≤ n)
+  | some (false, bits), .max n => decide (2 ^ bits - 1 ≤ n)
+  | some (false, _), .min n => decide (n ≤ 0)
+  | some (false, _), .nonnegative => true
+  | _, _ => false
+
+def roundsThroughFloat : TRule → Bool
+  | .gt n | .gte n | .lt n | .lte n => decide (2 ^ 53 < n.natAbs)
+  | _ => false
+
 /-- KNOWN FINDINGS, single rule: the (rule, field type) cells where the schema built by FromStruct
     does not behave as documented on some boundary value. -/
 def knownSingle (r : TRule) (t : FTy) : Bool :=
   match t.base.cls, t.ptr, r with
-  -- `nonnegative` / `nonpositive` are not implemented at all
-  | .num, _, .nonpositive => true
-  | .num, _, .nonnegative => !t.base.isUnsigned       -- (unsigned: no probe can violate it)
+  -- numeric fields.  A rule no value of the type can violate (`max=127` on int8, `nonnegative` on
+  -- uint) cannot be observed as dropped.  Otherwise: `nonnegative`/`nonpositive` are not implemented
+  -- at all; value fields: the switches list int, int64, float32, float64 only; pointer fields: no
+  -- switch lists a pointer schema; int/int64: `gt/gte/lt/lte` parse the bound with ParseFloat and
+  -- convert back (`int64(value)`), so a bound above 2^53 is rounded.
   | .num, _, .required => false
-  -- value fields: the switches list int, int64, float32, float64 only
-  | .num, false, _ => t.base.narrowInt || t.base.isUnsigned
-  -- pointer fields: no switch lists a pointer schema
-  | .num, true, _ => true
+  | .num, ptr, r =>
+    if vacuous r t.base then false
+    else match r with
+      | .nonpositive | .nonnegative => true
+      | _ => ptr || t.base.narrowInt || t.base.isUnsigned || (t.base.intShape.isSome && roundsThroughFloat r)
   | .str, false, _ => false
   | .str, true, .min _ | .str, true, .max _ | .str, true, .length _ | .str, true, .regex => true
   | .str, true, .uuid => true                          -- nil rejected although not `required`
